@@ -106,10 +106,14 @@ Objective(inst, sol) == 0 - Makespan(inst, Sem(inst, sol).ops)
 Pointless(inst, pre, a) == FALSE
 PadNeeded(inst) == TRUE            \* episodes of one batch finish at different steps
 
-\* C02 step bound: one step per operation plus one per wait.  Waiting is only possible
-\* at machines of the stages 1.. while some job has not yet arrived there, which is over
-\* before Horizon, and each time unit has (S-1)*m such decision points.
-StepBound(inst) == inst.N * inst.S + (inst.S - 1) * inst.m * Horizon(inst)
+\* C02 step bound: one step per operation plus one per wait.  Waiting at a machine of stage
+\* s >= 1 is only sensible while some job has not yet left the stages before s; the stages
+\* before the last one are left by all jobs before HPre (sum, over jobs and those stages, of
+\* the longest run time in the stage), and every time unit has (S-1)*m such decision points.
+MaxRunInStage(inst, j, st) == MaxSet({Dur(inst, j, k) : k \in (st * inst.m)..((st + 1) * inst.m - 1)})
+HPre(inst) == SumSeq([x \in 1..(inst.N * (inst.S - 1)) |->
+                 MaxRunInStage(inst, (x - 1) \div (inst.S - 1), (x - 1) % (inst.S - 1))])
+StepBound(inst) == inst.N * inst.S + (inst.S - 1) * inst.m * HPre(inst)
 
 \* --- the schedule TENSOR of the environment read as a set of operations ---
 \* sched[k+1][j+1] = start time of job j on machine k, a negative number = never started
